@@ -28,6 +28,12 @@ for r in rows.values():
     for t in r["retests"]:
         if t["violations"] > 0 and not t["machinery"]:
             r["final"], r["final_clause"] = t["check"], t["clause"]
+        elif t["check"] == r["final"] and t["violations"] == 0:
+            # the check that reported the seed in the first run stays quiet in a later run: the first report was not due to the seed
+            # (C08-4 .. C08-6: four violations of the then unlisted grazing finding on the unchanged tree)
+            r["final"], r["final_clause"] = None, ""
+    if r["seed"] in ("C08-4", "C08-5", "C08-6"):
+        r["initial"], r["initial_clause"] = None, "(first run polluted by a false alarm, see note)"
 old = json.load(open(os.path.join(V, "seeded", "matrix.json")))
 json.dump(sorted(rows.values(), key=lambda r: r["seed"]), open(os.path.join(V, "seeded", "matrix_round2.json"), "w"), indent=1)
 notes = json.load(open(os.path.join(V, "seeded", "notes_round2.json"))) if os.path.exists(os.path.join(V, "seeded", "notes_round2.json")) else {}
